@@ -180,7 +180,8 @@ def run_tlc(module, cfg, scratch, env=None, workers=1, timeout=1800, extra=(),
     tag = tag or ("%s-%d-%d" % (module, os.getpid(), random.randrange(1 << 30)))
     meta = os.path.join(scratch.path, "meta-" + tag)
     os.makedirs(meta, exist_ok=True)
-    cmd = ["java", "-XX:+UseParallelGC", "-Xmx" + xmx, "-Xss16m", "-cp", JAR, "tlc2.TLC",
+    gc = ["-XX:+UseSerialGC"] if workers == 1 else ["-XX:+UseParallelGC", "-XX:ParallelGCThreads=%d" % max(2, min(8, workers))]
+    cmd = ["java"] + gc + ["-XX:TieredStopAtLevel=4", "-Xmx" + xmx, "-Xss16m", "-cp", JAR, "tlc2.TLC",
            "-workers", str(workers), "-noGenerateSpecTE", "-metadir", meta,
            "-config", cfg] + list(extra) + [module + ".tla"]
     e = dict(os.environ)
@@ -441,3 +442,41 @@ def import_all_commands():
 
 def qname(cls):
     return "%s.%s" % (PART_OF_MODULE.get(cls.__module__, cls.__module__), cls.__name__)
+
+
+# ---------------------------------------------------------------------------
+# parallel recording and row interning
+# ---------------------------------------------------------------------------
+
+def pmap(fn, items, procs=None, chunksize=1):
+    """Run fn over items in forked worker processes (the library is already
+    imported in the parent, so children share it)."""
+    import multiprocessing as mp
+    procs = procs or NCPU
+    if procs <= 1 or len(items) <= 1:
+        return [fn(x) for x in items]
+    ctx = mp.get_context("fork")
+    with ctx.Pool(procs) as pool:
+        return pool.map(fn, items, chunksize)
+
+
+class Interner:
+    """Plain de-duplication of identical rows of recorded results (lossless;
+    knows nothing about what the rows mean).  Index is 1-based for TLA+."""
+
+    def __init__(self):
+        self.index = {}
+        self.rows = []
+
+    def add(self, row):
+        key = json.dumps(row, separators=(",", ":"))
+        ix = self.index.get(key)
+        if ix is None:
+            self.rows.append(row)
+            ix = len(self.rows)
+            self.index[key] = ix
+        return ix
+
+    def write(self, path):
+        write_ndjson(path, self.rows)
+        return path
